@@ -526,6 +526,12 @@ func runCheck(c *Config) int {
 	if err != nil {
 		return fail(2, "INCONCLUSIVE engine: "+err.Error())
 	}
+	// undecided assertion queries get a second, sequential attempt with twice the time
+	retried, reclosed := 0, 0
+	for _, r := range results {
+		retried += len(r.Retry)
+		reclosed += r.RetryUnknowns(func() *symx.Solver { return symx.NewSolver(c.Solver) })
+	}
 	exploreS := time.Since(t0).Seconds() - l.loadS
 
 	// ---- product-mode comparison (C19) ----
@@ -881,6 +887,7 @@ func runCheck(c *Config) int {
 			"source_tree_digest":            treeDigest(c, fnList, l),
 			"entry_points_enumerated":       c.generated,
 			"scenarios_wrapped":             len(c.scenarios),
+			"assertion_queries_retried":     map[string]int{"retried": retried, "closed_on_retry": reclosed},
 			"site_inventory":                siteInventory(c, l, fnList),
 			"explanation":                   "bounded symbolic execution of the real Go SSA of /repo; every assertion instance is an SMT query (path condition AND NOT assertion) decided by " + c.Solver + "; states = symbolic paths, transitions = symbolic branch decisions",
 		},
